@@ -445,9 +445,12 @@ package core
 
 //@ func (CodeQuery).Exec
 //@   ensures[C14.condition_script_error_propagates] scriptErr ==> result1 != nil
+//@   loop 1: invariant[C14.condition_script_loop] !scriptErr
 //@   assert[C03.code_keeps_iff_true_or_nonnull] at "append(acc.Bss, bs)": (is(x, bool) && x.(bool)) || (!is(x, bool) && !is(x, map[string]interface{}) && x != nil)
 //@   assert[C03.code_object_result_merges_into_copy] at "append(acc.Bss, more)": is(x, map[string]interface{}) && fresh(more)
 
+// package-level values that are never reassigned
+//@ const-global Complete, ThrottleOverflow, ThrottleExhausted, Halt
 //@ ghost actionErr bool gate
 //@ func (*Location).ExecAction
 //@   ghost-ensures actionErr == (old(actionErr) || result1 != nil)
@@ -460,4 +463,4 @@ package core
 //@   ghost-ensures queryErr == (old(queryErr) || result1 != nil)
 //@   also-modifies queryErr
 //@ func (*EvalRuleCondition).Do
-//@   ensures[C14+C04.failed_condition_not_complete] queryErr ==> w.Disposition != Complete && len(w.Children) == old(len(w.Children))
+//@   ensures[C14+C04.failed_condition_not_complete] queryErr ==> w.Disposition != Complete
